@@ -1865,10 +1865,21 @@ func (query *Query) IsDual() bool {
 }
 
 func RegexComparison(left any, pattern string) (bool, error) {
-	regExpr := strings.ReplaceAll(strings.ToLower(pattern), "_", ".")
-	regExpr = strings.ReplaceAll(regExpr, "%", ".*")
-	regExpr = "^" + regExpr + "$"
-	return regexp.Match(regExpr, []byte(strings.ToLower(fmt.Sprintf("%v", left))))
+	// only `%` and `_` are wildcards, every other character matches itself
+	var regExpr strings.Builder
+	regExpr.WriteString("(?s)^")
+	for _, r := range strings.ToLower(pattern) {
+		switch r {
+		case '_':
+			regExpr.WriteString(".")
+		case '%':
+			regExpr.WriteString(".*")
+		default:
+			regExpr.WriteString(regexp.QuoteMeta(string(r)))
+		}
+	}
+	regExpr.WriteString("$")
+	return regexp.Match(regExpr.String(), []byte(strings.ToLower(fmt.Sprintf("%v", left))))
 }
 
 func RegisterFunction(name string, function Function) {
